@@ -61,6 +61,9 @@ type Decoder struct {
 	p      []byte
 	offset int
 	mode   DecoderMode
+	// keyStart and keyEnd delimit the field key most recently read by DecodeTag. Skip uses them to
+	// locate the first byte of the field when that key was not minimally encoded.
+	keyStart, keyEnd int
 }
 
 // NewDecoder initializes a new Protobuf decoder to read the provided buffer.
@@ -138,6 +141,7 @@ func (d *Decoder) DecodeTag() (tag int, wireType WireType, err error) {
 	if n < 1 || (v>>3) < 1 || (v>>3) > MaxTagValue {
 		return 0, -1, fmt.Errorf("invalid tag value (%d) at byte %d: %w", v, d.offset, ErrInvalidFieldTag)
 	}
+	d.keyStart, d.keyEnd = d.offset, d.offset+n
 	d.offset += n
 	return int(v >> 3), WireType(v & 0x7), nil
 }
@@ -934,6 +938,11 @@ func (d *Decoder) Skip(tag int, wt WireType) ([]byte, error) {
 		return nil, io.ErrUnexpectedEOF
 	}
 	sz := SizeOfTagKey(tag)
+	if d.keyEnd == d.offset && d.keyEnd-d.keyStart > sz {
+		// the key just read by DecodeTag was padded (a valid but non-minimal varint), so the field
+		// starts where that key started, not SizeOfTagKey(tag) bytes before the payload
+		sz = d.keyEnd - d.keyStart
+	}
 	bof := d.offset - sz
 	// account for skipping the first field
 	if bof < 0 {
